@@ -20,6 +20,7 @@ ASSUMPTIONS = c04.ASSUMPTIONS + [
     "E/B conventions are the documented u-frame contractions with u = n",
     "Weyl scalar definitions as documented (Alcubierre p.295) on the returned tetrad"]
 TIMEOUT = {"quick": 1500, "thorough": 7000}
+MEM_GB = 4.0
 MIN_NONTRIVIAL = {"quick": 60, "thorough": 200}
 
 
